@@ -469,7 +469,12 @@ pub fn register_upvalue<T>(
                 // if there is an existing upvalue to this location reuse that
                 c.upvalues.push(NonNull::new_unchecked(upvalue));
             } else {
+                let next_upvalue = upvalue;
                 let upvalue = vm.init_upvalue(location)?;
+                // link the rest of the list behind the new node
+                if let Some(u) = (*upvalue.0.as_ptr()).as_upvalue_mut() {
+                    u.next = next_upvalue;
+                }
 
                 // keep the open upvalues sorted
                 match prev_upvalue.as_mut().and_then(|u| u.as_upvalue_mut()) {
